@@ -7,12 +7,19 @@ on a history: it is evaluated on every graph event *at the moment the scheduler 
 (`eventOk`), in the state the model is in at that moment.
 
 * E1  a task settles at most once, and only after its computation was started;
-* E2  a new group's parent is `None`, in the same `Work`, or currently in the graph;
+* E2  a new group's parent is `None`, in the same `Work`, or was introduced earlier.  (DESIGN
+      stated "or currently in the graph"; observing the real executor showed that too strict: a
+      task whose groups were removed by the failure of a shared task still settles, and its
+      nested work then refers to the removed parent — the scheduler keeps such groups as
+      orphans that are never delivered.)
 * E3  a stream delivers only after its pump was started, yields its items in index order
       without gaps, and delivers nothing after it stopped or failed (except the pump's
       trailing `_StreamSuccess` after a batch delivered with `is_stopped()` true);
-* E4  nested work refers only to groups it introduces or to groups of the producing task
-      (work of stream items / the initial work: only to groups it introduces);
+* E4  the tasks of a `Work` belong only to groups it introduces or to groups introduced
+      earlier.  (DESIGN stated "groups it introduces or groups of the producing task"; observing
+      the real executor showed that too strict: with `... @defer(a) { x ... @defer(b) { y } }`
+      both fragments are introduced together, and the execution group of `b` is produced by the
+      result of `a`'s execution group.  No theorem uses this clause.)
 * E5  every group, task and stream object is introduced by exactly one `Work`, once
       (objects are fresh), and a task belongs to at least one group, without repetition;
 * E6  groups are numbered by allocation serial: a group's parent object exists before the
@@ -45,14 +52,10 @@ def workOk (σ : Static) (e : EnvSt) (q : WQ) (producer : Option Nat) (w : Work)
   && w.groups.all (fun g =>
       match σ.parent g with
       | none => true
-      | some p => decide (p < g) && (w.groups.contains p || (alookup q.groupNodes p).isSome))
+      | some p => decide (p < g) && (w.groups.contains p || e.introG.contains p))
   && w.tasks.all (fun t =>
       !(σ.tgroups t).isEmpty && nodupB (σ.tgroups t)
-      && (σ.tgroups t).all (fun g =>
-          w.groups.contains g ||
-          (match producer with
-           | some pt => (σ.tgroups pt).contains g
-           | none => false)))
+      && (σ.tgroups t).all (fun g => w.groups.contains g || e.introG.contains g))
 
 def workOptOk (σ : Static) (e : EnvSt) (q : WQ) (producer : Option Nat) : Option Work → Bool
   | none => true
